@@ -145,6 +145,7 @@ THEOREMS = [
     "OllamaVerif.Tie.C06.copy_table",
     "OllamaVerif.Tie.C06.place_table",
     "OllamaVerif.Tie.C06.resume_table",
+    "OllamaVerif.Tie.C06.encoder_table",
     "OllamaVerif.C06.startForward_put_abs_perm",
     "OllamaVerif.C06.forward_abs_perm",
     "OllamaVerif.C06.slideSeq_abs",
@@ -191,7 +192,7 @@ BIT_NAMES = {1: "F14 (defrag coalescing)", 2: "F15b (CanResume coverage)", 4: "F
 def lean_tables(lines, variant):
     """tables.txt (written by TestVerifC06Tables: the real code executed over small finite domains) ->
     Generated/C06_Tables.lean"""
-    rows = {"mask": [], "evict": [], "remove": [], "copy": [], "place": [], "resume": []}
+    rows = {"mask": [], "evict": [], "remove": [], "copy": [], "place": [], "resume": [], "encoder": []}
     for ln in lines:
         kind, _, rest = ln.strip().partition(" ")
         if kind not in rows:
@@ -227,6 +228,8 @@ def lean_tables(lines, variant):
                   "occupancy of 5 cells, batch size ↦ curLoc of the accepted batch, 100 = ErrKvCacheFull, 101 = panic")
             + lst("resume", "Nat × List Bool × Int × Bool",
                   "window, which of the positions 0..4 sequence 0 holds (cell i = position i), queried position ↦ CanResume")
+            + lst("encoder", "Bool × Int × Int × Int × Bool",
+                  "EncoderCache: reserve pass, position of the stored encoder output, Remove(0, begin, end (−1 = MaxInt32)) ↦ EncoderCached()")
             + "\nend OllamaVerif.Generated.C06\n")
 
 
